@@ -140,9 +140,11 @@ func IndexFromFile(ctx context.Context,
 		if w.err != nil {
 			return index, stats, w.err
 		}
-		// Stop if this worker reached the end of the stream (it's not necessarily
-		// the last worker!)
-		if w.eof {
+		// Stop once the collected chunks cover the whole stream (that's not
+		// necessarily at the last worker!). A worker that reached the end of the
+		// stream can have been drained and skipped by its predecessor, so its eof
+		// flag alone doesn't mean the following buckets are empty.
+		if uint64(index.Length()) >= size {
 			break
 		}
 	}
